@@ -29,7 +29,7 @@ except Exception:
 for f in sorted(glob.glob('/verif/seeded/*/meta.json')):
     e = json.load(open(f))
     sid = f.split('/')[-2]
-    res = '; '.join('%s: %s' % (c, 'CAUGHT (%s)' % (r['signatures'][0].replace('violation signature: ', '')[:60] if r['signatures'] else '') if r['caught'] else 'missed') for c, r in e.get('our_checks_against_it', {}).items())
+    res = '; '.join('%s: %s' % (c, 'CAUGHT (%s)' % (r['signatures'][0].replace('violation signature: ', '')[:60] if r['signatures'] else '') if r['caught'] else 'missed') + (' [first run: missed]' if r.get('first_run', {}).get('caught') is False and r['caught'] else '') for c, r in e.get('our_checks_against_it', {}).items())
     rows.append('| %s | %s | %s | %s | %s | %s |' % (sid, e.get('property'), (e.get('breaks') or '')[:300].replace('|', '\\|').replace('\n', ' '), (e.get('needs_to_manifest') or '')[:220].replace('|', '\\|').replace('\n', ' '), res, notes.get(sid, '')))
 put('seeded', '\n'.join(rows))
 open('/verif/DESIGN.md', 'w').write(s)
